@@ -528,11 +528,17 @@ def run_error_positions(repo, tier='quick', rule='E6p'):
             whole_line = bad[:lo - 1].strip() == ''         # an expression statement: the expression text is the whole line, leading blanks included
             if whole_line:
                 lo = 1
-            for prefix, start, indent in (([], None, 0), (['# c', '', 'q = 1'], None, 0), ([], 10, 0), ([], None, 3)):
+            for prefix, start, indent in (([], None, 0), (['# c', '', 'q = 1'], None, 0), ([], 10, 0), ([], None, 3), ([], None, -3)):
                 if indent and whole_line:
                     continue
                 n += 1
-                if indent:
+                trailing = indent < 0
+                if indent < 0:
+                    # blanks after the statement: same position, the line text as written
+                    bad_i = bad + ' ' * (-indent)
+                    text = '\n'.join(lines[:bad_ix] + [bad_i] + lines[bad_ix + 1:]) + '\n'
+                    indent = 0
+                elif indent:
                     bad_i = ' ' * indent + bad
                     text = '\n'.join(lines[:bad_ix] + [bad_i] + lines[bad_ix + 1:]) + '\n'
                 else:
@@ -540,7 +546,7 @@ def run_error_positions(repo, tier='quick', rule='E6p'):
                     text = '\n'.join(prefix + lines) + '\n'
                 got = parse(text) if start is None else parse(text, start)
                 desc = f'faulty expression {fault!r} in the line {bad.strip()!r}' + (f' after {len(prefix)} prepended lines' if prefix else '') + (f' with start line {start}' if start else '') + \
-                    (f' indented by {indent} more blanks' if indent else '')
+                    (f' indented by {indent} more blanks' if indent else '') + (' followed by 3 blanks' if trailing else '')
                 if got[0] == 'ok':
                     problems.append(('accepted', f'{desc}: parse_script accepts the program'))
                     continue
